@@ -97,7 +97,7 @@ def check_accumulator(out, facts):
     from .c19 import _writes_field
     writers = set()
     for g in facts.fns:
-        if g.get('thir') and 'MemTrackingInput' in (g.get('self') or '') and _writes_field(g['thir'], 'used_mem'):
+        if g.get('thir') and 'MemTrackingInput' in (g.get('self') or '') and _writes_field(g['thir'], 'used_mem', facts):
             writers.add(g.get('method'))
     out.ob('R12.1', 'MemTrackingInput.used_mem writers [%s]' % cfg, writers <= {'on_before_alloc_mem'},
            'used_mem is also written by %s' % sorted(writers - {'on_before_alloc_mem'}), '-')
